@@ -5,6 +5,8 @@
 package gossip
 
 import (
+	"reflect"
+	"unsafe"
 	"encoding/hex"
 	"encoding/json"
 	"fmt"
@@ -90,8 +92,21 @@ func vhsyRun(c vhsyCase) pkggossip.VhCaseOut {
 			}
 			sort.Slice(d.Nodes, func(i, j int) bool { return d.Nodes[i].ID < d.Nodes[j].ID })
 			syncers[idx].mu.Lock()
-			for _, nd := range syncers[idx].pendingNodes {
-				d.Pending = append(d.Pending, vhsyNodeOf(nd))
+			// read through reflection so that the probe does not depend on HOW the syncer stores its pending nodes
+			// (map of pointers or of values): a refactoring of that detail must be judged by its behaviour
+			if f := reflect.ValueOf(syncers[idx]).Elem().FieldByName("pendingNodes"); f.IsValid() && f.Kind() == reflect.Map {
+				f = reflect.NewAt(f.Type(), unsafe.Pointer(f.UnsafeAddr())).Elem()
+				it := f.MapRange()
+				for it.Next() {
+					v := it.Value()
+					switch nd := v.Interface().(type) {
+					case *cluster.Node:
+						d.Pending = append(d.Pending, vhsyNodeOf(nd))
+					case cluster.Node:
+						cp := nd
+						d.Pending = append(d.Pending, vhsyNodeOf(&cp))
+					}
+				}
 			}
 			syncers[idx].mu.Unlock()
 			sort.Slice(d.Pending, func(i, j int) bool { return d.Pending[i].ID < d.Pending[j].ID })
